@@ -10,6 +10,7 @@ import Frugal.Props.Inst.Params
 import Frugal.Props.Inst.F_facts_unknownIndexProtocol
 import Frugal.Props.Inst.F_skeleton_decoder
 import Frugal.Props.Inst.F_skeleton_encoder
+import Frugal.Props.Inst.F_skeleton_descTable
 namespace Frugal.C11
 open Frugal
 /-- retained unknown-field bytes are re-emitted verbatim inside their struct, before STOP -/
@@ -193,5 +194,13 @@ theorem decoder_model_written_from_this_code : Generated.facts.decoderSkeleton =
     structure of the code (regenerated fingerprint; the fast-path tables are regenerated themselves) -/
 theorem encoder_model_written_from_this_code : Generated.facts.encoderSkeleton = Skeleton.encoder :=
   Instances.skeleton_encoder
+
+/-- the schema the theorems quantify over reaches the codec through the descriptor tables (field index
+    by id, required ids, offsets, per-field flags and fixed sizes, the type node's tag / size / alignment /
+    element nodes): the declarations `structDesc`, `tField`, `tType` and the functions that fill them in
+    (`fromDefsFields`, `fromDefsField`, `GetField`, `newTType`) are, as full text, those the model and the
+    correspondence runs were validated against (regenerated fingerprint) -/
+theorem descriptor_tables_built_as_modelled : Generated.facts.descTableSkeleton = Skeleton.descTable :=
+  Instances.skeleton_descTable
 
 end Frugal.C11
